@@ -56,6 +56,11 @@ def run_shard(spec, rep):
             h = comp.heat_capacity_constants
             h.a, h.b, h.c, h.d = rng.uniform(-200, 300), rng.uniform(-1, 1), rng.uniform(-3e-3, 3e-3), rng.uniform(-5e-6, 5e-6)
             cls = "synthetic-" + v.type
+        if rng.random() < 0.25:
+            import pickle
+
+            comp = pickle.loads(pickle.dumps(comp))  # what joblib / multiprocessing / a cache hands back: equal, not identical strings
+            cls += "-pickled"
         v = comp.vapour_pressure_constants
         while True:
             t = rng.uniform(200, 500)
@@ -96,7 +101,7 @@ def run_shard(spec, rep):
 
 def finalize(agg, tier):
     need = ["builtin-antoine", "synthetic-antoine", "synthetic-frost"]
-    return [f"workload class {c} not exercised" for c in need if agg["classes"].get(c, 0) == 0]
+    return [f"workload class {c} not exercised" for c in need if not any(k.startswith(c) for k in agg["classes"])]
 
 
 LEVEL_TEXT = (
